@@ -10,6 +10,7 @@ import (
 	"github.com/openacid/slim/encode"
 	"github.com/openacid/slim/trie"
 	"verif/internal/h"
+	"verif/internal/legacy"
 )
 
 func init() {
@@ -141,7 +142,7 @@ func runC13(r *h.Run) {
 	p := defaultProfile()
 	p.opts = []h.Opt4{{D: 1, I: 0, L: 0, C: 0}, {D: 0, I: 0, L: 0, C: 0}, {D: 1, I: 0, L: 0, C: 1}}
 	p.noOptArg = false
-	p.insts = []string{h.InstFresh, h.InstUnm}
+	p.insts = []string{h.InstFresh, h.InstUnm, h.InstUnmUsed}
 	r.Rule = "same key/value space as C01; for every input and both DedupValue settings the four prefix configurations (both, inner, leaf, none; 'both' also through the Complete flag) are built from the one input and every query of Q is asked of all four; oracle over the ordered pairs (both,inner),(both,leaf),(inner,none),(leaf,none),(both,none): found_more => found_less with the same value; both-found => retained; all modes identical on retained keys. A state is a distinct (marshaled bytes, options, encoder)"
 	r.Assumptions = commonAssumptions
 	if r.Tier == "quick" {
@@ -255,7 +256,7 @@ func oracleC14(w *h.Worker, b *h.Built, inst string, st *trie.SlimTrie, u *input
 
 func laneWidth(enc string) (int, int, bool) {
 	i := strings.Index(enc, "L:")
-	if i < 0 || enc[0] != 'I' {
+	if i < 0 || (enc[0] != 'I' && enc[0] != 'T') {
 		return 0, 0, false
 	}
 	var wd, rot int
@@ -275,7 +276,9 @@ func runC14(r *h.Run) {
 			p.encsSmall = append(p.encsSmall, fmt.Sprintf("I%dL:%d", wd, rot))
 		}
 	}
-	p.insts = []string{h.InstFresh, h.InstUnm}
+	// the same widths through a TypeEncoder (default byte order) on the small sets
+	p.encsSmall = append(p.encsSmall, "T8L:0", "T16L:0", "T32L:0", "T64L:0")
+	p.insts = []string{h.InstFresh, h.InstUnm, h.InstUnmUsed}
 	p.many = true
 	p.scaffoldFilter = func(n string) bool {
 		return strings.HasPrefix(n, "short") || strings.HasPrefix(n, "shift") || n == "bigroot-in" || n == "lift3"
@@ -325,6 +328,13 @@ func runC14(r *h.Run) {
 		for k := 60; k <= 70; k++ {
 			s := h.ScaffoldFixed(fmt.Sprintf("sweep%d", k), h.SweepFiller(k), "\xff").Apply([]string{"", "\x0f", "\xf0\xff"})
 			if !emit(lu{s.Keys, queriesFor(s, sp.q2, false, false), "scaffold:" + s.Name}) {
+				return
+			}
+		}
+		sweep, cov := legacy.OldIDSweep()
+		r.Bounds["old_id_sweep"] = fmt.Sprintf("%d key lists; (node count, highest inner id, highest step id, highest leaf id) of the pre-0.5.10 trie reach %d of 4 x 64 residues modulo 64", len(sweep), cov)
+		for i, keys := range sweep {
+			if !emit(lu{keys, keys, fmt.Sprintf("old-id-sweep(%03d)", i)}) {
 				return
 			}
 		}
@@ -533,6 +543,13 @@ func runC18(r *h.Run) {
 				if !emit(lu{s.Keys, "scaffold:" + s.Name}) {
 					return
 				}
+			}
+		}
+		sweep, cov := legacy.OldIDSweep()
+		r.Bounds["old_id_sweep"] = fmt.Sprintf("%d key lists; (node count, highest inner id, highest step id, highest leaf id) of the pre-0.5.10 trie reach %d of 4 x 64 residues modulo 64", len(sweep), cov)
+		for i, keys := range sweep {
+			if !emit(lu{keys, fmt.Sprintf("old-id-sweep(%03d)", i)}) {
+				return
 			}
 		}
 	}, func(w *h.Worker, x interface{}) {
